@@ -11,6 +11,7 @@ func init() {
 const subMu = "protocol/sub.socket.Mutex"
 
 func runC06(p *Prog, r *Report) {
+	lockBalance(p, r, "C06.8/E1", "protocol/sub", "protocol/xsub", "protocol/xpub")
 	q := NewQ(p, r)
 	R := "C06.1/matching"
 	r.Describe(R, "context.matches: true iff bytes.HasPrefix(m.Body, s) for some current subscription s")
@@ -61,6 +62,12 @@ func runC06(p *Prog, r *Report) {
 			}
 		}
 		r.Check(okG, R, "enqueue-iff-matches", sends.Pos(p), "every enqueue is guarded by matches(m), under the lock, inside the loop over all contexts", "a message is enqueued to a context without the guard c.matches(m) (or outside the lock/loop): "+guardsOf(sends))
+		for _, e := range sends {
+			if e.Kind == "select-send" {
+				fanoutNoBypass(p, r, R, "receiver", e.In, func(a string) bool { return a == "!sub.(*context).matches(…)" }, " (skipped only for contexts whose subscriptions do not match)")
+				break
+			}
+		}
 		mc := rc.Ev("call", "sub.(*context).matches")
 		r.Check(len(mc) == 1 && strings.HasPrefix(mc[0].Args[0], "next(range(recv.s.ctxs))") && mc[0].Args[1] == "recv.p.RecvMsg()", R, "matches-per-context", mc.Pos(p), "matches is evaluated per context on the received message", "matches is not evaluated for each context on the received message")
 		// overflow: drop oldest (recv from the same queue + Free) then send
@@ -88,6 +95,16 @@ func runC06(p *Prog, r *Report) {
 		mc := us.Ev("call", "sub.(*context).matches")
 		st := us.Ev("store", "recv.subs")
 		r.Check(len(mc) == 1 && len(st) == 1 && mc.DominatedBy(st), R, "matches-after-removal", mc.Pos(p), "matching is evaluated after the topic was removed", "the queue is pruned against the old subscription list")
+		okRm := len(st) == 1 && strings.HasPrefix(st[0].Args[0], "append(recv.subs[:") && strings.Contains(st[0].Args[0], ",recv.subs[(") && strings.HasSuffix(st[0].Args[0], " + 1):])")
+		if okRm {
+			okRm = false
+			for _, a := range st[0].Guard {
+				if strings.HasPrefix(a, "bytes.Equal(recv.subs[") && strings.HasSuffix(a, ",arg1)") {
+					okRm = true
+				}
+			}
+		}
+		r.Check(okRm, R, "removes-exactly-the-equal-topic", st.Pos(p), "subs = append(subs[:i], subs[i+1:]...) for the i with bytes.Equal(subs[i], topic)", "unsubscribe does not remove exactly the one entry that is byte-equal to the topic: "+argsOf(st)+" "+guardsOf(st))
 		var bv Sel
 		for _, e := range us.Ev("return", "") {
 			if e.Args[0] == "ErrBadValue" {
@@ -106,6 +123,31 @@ func runC06(p *Prog, r *Report) {
 			if strings.HasPrefix(e.Args[0], "make([],0,len(arg1))") && e.Args[1] == "arg1" {
 				okCopy = true
 			}
+		}
+		// the only way not to add the topic is that an EQUAL topic is already present
+		eqAtom := func(g []string) bool {
+			for _, a := range g {
+				if strings.HasPrefix(a, "bytes.Equal(recv.subs[") && strings.HasSuffix(a, ",arg1)") {
+					return true
+				}
+			}
+			return false
+		}
+		var noop Sel
+		okNoop := true
+		for _, e := range sb.Ev("return", "") {
+			if len(st) == 1 && e.In.Block() == st[0].In.Block() {
+				continue
+			}
+			noop = append(noop, e)
+			if !eqAtom(e.Guard) {
+				okNoop = false
+			}
+		}
+		r.Check(okNoop && len(noop) >= 1, R, "subscribe/noop-only-for-equal-topic", noop.Pos(p), "subscribe skips the insertion only when a byte-equal topic is already subscribed", "subscribe returns without adding the topic on a condition other than bytes.Equal(existing, topic): a topic merely related to an existing one (e.g. covered by a shorter prefix) is never recorded, so it is lost when the other one is unsubscribed: "+guardsOf(noop))
+		if len(st) == 1 {
+			okAdd := strings.HasPrefix(st[0].Args[0], "append(recv.subs,")
+			r.Check(okAdd, R, "subscribe/appends", st.Pos(p), "the topic is appended to the existing list", "subscribe does not append to the existing subscription list: "+argsOf(st))
 		}
 		r.Check(len(st) == 1 && okCopy, R, "subscription-is-a-copy", st.Pos(p), "the topic is copied before it is stored", "the subscription aliases the caller's slice (later changes by the caller change the filter)")
 	}
